@@ -866,9 +866,9 @@ theorem startStreams_same : ∀ (l : List Stream) (s s' : State), startStreams l
 theorem strDistribute_spec (s : State) (es : List Nat) (streams : List Stream) (maxOps : Nat) (ee : Bool) (s' : State)
     (hg : GInv s) (h : strDistribute s es streams maxOps ee = .ok s') : GInv s' ∧ Pay s s' := by
   unfold strDistribute at h
-  have hci := ptrLoop_CI s hg.ids maxOps (sortByDuration es) 0 ⟨streams, [], []⟩ s.ptrs
+  have hci := ptrLoop_CI s hg.ids maxOps (sortByDuration es) 0 ⟨sortById streams, [], []⟩ s.ptrs
     ⟨by simp, by simp, by intro i; simp [extras]⟩
-  generalize ptrLoop s maxOps (sortByDuration es) 0 ⟨streams, [], []⟩ s.ptrs = res at h hci
+  generalize ptrLoop s maxOps (sortByDuration es) 0 ⟨sortById streams, [], []⟩ s.ptrs = res at h hci
   obtain ⟨tot, c, ps⟩ := res
   dsimp only at h hci
   obtain ⟨ci1, ci2, ci3⟩ := hci
@@ -932,7 +932,6 @@ theorem strDistribute_spec (s : State) (es : List Nat) (streams : List Stream) (
 theorem streamerAfterEpochEnd_spec (s : State) (e : Nat) (s' : State) (hg : GInv s)
     (h : streamerAfterEpochEnd s e = .ok s') : GInv s' ∧ Pay s s' := by
   unfold streamerAfterEpochEnd at h
-  dsimp only at h
   split at h
   · simp only [Except.ok.injEq] at h; subst h; exact ⟨hg, Pay.refl _⟩
   · cases hd : strDistribute s [e] (activeStreamsFor s e) maxU64 true with
@@ -1161,10 +1160,15 @@ theorem createStream_same (s : State) (c : Coins) (rs : List Rec) (st e n : Nat)
   repeat' split
   all_goals first | exact Same.refl _ | exact ⟨rfl, rfl, rfl, rfl⟩
 
+theorem moveToFinished_same (s : State) (b : Bool) (st : Stream) (s' : State) (h : moveToFinished s b st = some s') : Same s s' := by
+  unfold moveToFinished at h
+  repeat' (first | split at h | dsimp only at h)
+  all_goals first | (simp at h; done) | (simp only [Option.some.injEq] at h; subst h; exact ⟨rfl, rfl, rfl, rfl⟩)
+
 theorem terminateStream_same (s : State) (id : Nat) : Same s (terminateStream s id).2 := by
   unfold terminateStream
   repeat' (first | split | dsimp only)
-  all_goals first | exact Same.refl _ | exact ⟨rfl, rfl, rfl, rfl⟩
+  all_goals first | exact Same.refl _ | (exact moveToFinished_same _ _ _ _ (by assumption))
 
 theorem replaceDistr_same (s : State) (id : Nat) (rs : List Rec) : Same s (replaceDistr s id rs).2 := by
   unfold replaceDistr
